@@ -13,7 +13,11 @@
 pub struct PredFn<T> { x: core::marker::PhantomData<T> }
 impl<T> PredFn<T> {
     pub uninterp spec fn holds(&self, x: T) -> bool;
+    #[verifier::external_body]
+    pub fn call(&mut self, x: &T) -> (b: bool) ensures b == old(self).holds(*x), *final(self) == *old(self) { unimplemented!() }
 }
+// R13 (unit-wide): a direct call of the predicate field
+//@ rwall R13 re⟦\(self\.predicate\)\(⟧ => ⟦self.predicate.call(⟧
 // std::iter::Peekable<I> seen as the sequence it will still yield
 #[verifier::external_body]
 #[verifier::reject_recursive_types(T)]
